@@ -1,9 +1,6 @@
-SPECIFICATION Spec
+SPECIFICATION TSpec
 CONSTANTS
  TraceFile = "trace.ndjson"
- MaxMsg = 12
- MaxRec = 64
- MinLen = 32
 CONSTRAINT HWM
 POSTCONDITION Accepted_
 CHECK_DEADLOCK FALSE
